@@ -148,6 +148,18 @@ def import_closure(modules: List[str]) -> List[Path]:
     return sorted(seen.values())
 
 
+def leanchecker(modules: List[str]) -> Tuple[bool, str]:
+    """Lean's independent re-checker (replays the compiled declarations of the modules and of their imports
+    through the kernel).  Thorough tier only: 40-120 s."""
+    with build_lock():
+        try:
+            r = subprocess.run(['lake', 'env', 'leanchecker'] + list(modules), cwd=str(LEAN), capture_output=True,
+                               text=True, timeout=1800)
+        except subprocess.TimeoutExpired:
+            raise Infra('leanchecker timed out')
+    return r.returncode == 0, (r.stdout + r.stderr)
+
+
 def forbidden_hits(modules: Optional[List[str]] = None) -> List[str]:
     """Forbidden tokens in the Lean sources this property depends on (all sources if modules is None)."""
     files = import_closure(modules) if modules else sorted((LEAN / 'CylcModel').rglob('*.lean'))
